@@ -1886,13 +1886,15 @@ def serialize_graph_into(
         # Make sure the tensor's name is the same as the value's name
         value.const_value.name = value.name
         serialize_tensor_into(graph_proto.initializer.add(), from_=value.const_value)
+    graph_output_ids = {id(output) for output in from_.outputs}
     for node in from_:
         serialize_node_into(
             graph_proto.node.add(), from_=node, model_ir_version=model_ir_version
         )
         for node_output in node.outputs:
-            if node_output.is_graph_output():
+            if id(node_output) in graph_output_ids:
                 # No need to serialize info for these outputs because they are handled as graph outputs
+                # of this graph. (is_graph_output() is also true for outputs of a different graph.)
                 continue
             _maybe_add_quantization_annotation(graph_proto, node_output)
             if not _should_create_value_info_for_value(node_output):  # pylint: disable=no-else-continue
